@@ -49,6 +49,7 @@ inductive Ty
 inductive Op
   | int | float | str | bool          -- the builtin constructors
   | print (k : Leaf)                  -- isoformat / str / total_seconds / tzname / encodebytes().decode() / …
+  | iter                              -- list(x) for an opaque leaf object (bytes → ints, ip network → hosts)
   | parse (k : Leaf)                  -- fromisoformat / UUID / Decimal / parse_timezone / decodebytes(x.encode()) / …
   deriving DecidableEq, Repr, Inhabited
 
@@ -56,18 +57,40 @@ structure Oracle where
   call : Op → V → Except EK V
   /-- Python `==` between an input scalar and a schema constant. -/
   eq : V → V → Bool
+  /-- `.value` of an enum member of some other class than the annotated one -/
+  enumValue : String → String → Option V := fun _ _ => none
 
 def Oracle.run (O : Oracle) (op : Op) (v : V) : R V :=
   match O.call op v with
   | .ok r => .ok r
   | .error k => .error (.py k)
 
+/-- `for x in v` where opaque leaf objects are iterated by the oracle -/
+def pyIterO (O : Oracle) (v : V) : R (List V) :=
+  match v with
+  | .leaf _ _ => do
+      let r ← O.run .iter v
+      match r with
+      | .coll _ xs => pure xs
+      | _ => raisePy .typeError
+  | _ => pyIter v
+
 /-- Entry point / context: nailed = methods compiled on the class (mixin path), otherwise
     the codec path.  `ntAsDict` is the option in force for named tuples at this point. -/
 structure Cx where
   nailed : Bool := true
   ntAsDict : Bool := false
-  deriving Repr, Inhabited, DecidableEq
+  /-- reference ("spec") switches: each one replaces a behaviour of the implementation that
+      departs from the property statement by the behaviour the statement prescribes -/
+  fixK1 : Bool := false     -- a null union member matches only null
+  fixK2 : Bool := false     -- exact scalar type wins before any structured member is tried
+  fixK10 : Bool := false    -- serializing a union picks the member the value conforms to
+  /-- leaf kinds a format dialect leaves unconverted when serializing (pass_through) -/
+  passLeaves : List Leaf := []
+  /-- no_copy_collections contains list / dict -/
+  noCopyList : Bool := false
+  noCopyDict : Bool := false
+  deriving Repr, Inhabited
 
 /-- `could_be_none` of a dataclass field (builder.py): Any, NoneType, Optional[...] or a
     default that is None. -/
